@@ -65,8 +65,8 @@ CLAIMS = {
              'derived class before base class (two ghost chain positions), each in its own class context with `this` bound to the object and stamped with that class, one scope deep, and restores context and scope depth (two nested loop contracts). '
              '(c) dispatch: in the member-call branch of eval, obj.m(...) runs the vtable entry of the receiver\'s DYNAMIC class for the signature found through the static class when that method is virtual, the statically found method otherwise, and super.m(...) runs the method found in the base of the static class (region member_dispatch; class / method / vtable lookups uninterpreted); for super.m(...) and Name.m(...) - where the target evaluates to a class reference - the named class\'s version runs, a super call keeps the object the running method was called on as receiver, a static call has none (region member_dispatch_super; found and repaired: super.m() passed no receiver). '
              '(d) construction order: in runConstructorChain the base-constructor chain (for the base class, the same object) runs exactly once and first, then this class\'s field initialisers exactly once, then the constructor body starting after an explicit super(...) statement; a failing phase stops the construction (region ctor_phases: the three phase statements in source order, three loop contracts, events on a ghost clock); an explicit super(args) runs the applicable base constructor of lowest conversion cost and fails when none or two cheapest apply (the specification\'s own argmin is kept as ghost state next to the code\'s choice). '
-             '(e) the run-time class table (unit CTAB): buildClassTable populates every class after the class it extends, so the layout / vtable a class inherits by copy is complete whatever the order of declaration (appendBaseFirst proved with its own contract as induction hypothesis; the populate loop proved against that contract; found and repaired: declaration-order population). (f) vtable building (unit VTB): in the loop over a class\'s members, the vtable entry for a signature the class declares virtual / override is that class\'s own method with that signature and points to LIVE storage when the class is complete - a push_back on a std::vector bucket is modelled as possibly starting a new generation of the bucket (reallocation), on a std::deque never (found and repaired: vector buckets, so a class with two virtual overloads of one name crashed or dispatched wrongly).',
-        note=TB + 'exec / beginScope / endScope / the `this` binding are models with bodies that only record ghost events. NOT covered: what runs INSIDE the phases (runFieldInitialisers itself, the parameter-to-field copy of `= default` constructors, the implicit zero-argument base constructor choice), the copying of the base vtable itself, findMethod\'s candidate collection, static fields, generics, WHEN destroyObject is called '
+             '(e) the run-time class table (unit CTAB): buildClassTable populates every class after the class it extends, so the layout / vtable a class inherits by copy is complete whatever the order of declaration (appendBaseFirst proved with its own contract as induction hypothesis; the populate loop proved against that contract; found and repaired: declaration-order population). (g) static fields (unit OBJM, findStaticFieldWithOwner as a whole function): the storage of a static field is that of the nearest class on the chain cls, base, ... that DECLARES it - one slot per declaring class, whichever subclass or object it is reached through (ghost chain position; loop contract). (f) vtable building (unit VTB): in the loop over a class\'s members, the vtable entry for a signature the class declares virtual / override is that class\'s own method with that signature and points to LIVE storage when the class is complete - a push_back on a std::vector bucket is modelled as possibly starting a new generation of the bucket (reallocation), on a std::deque never (found and repaired: vector buckets, so a class with two virtual overloads of one name crashed or dispatched wrongly).',
+        note=TB + 'exec / beginScope / endScope / the `this` binding are models with bodies that only record ghost events. NOT covered: what runs INSIDE the phases (runFieldInitialisers itself, the parameter-to-field copy of `= default` constructors, the implicit zero-argument base constructor choice), the copying of the base vtable itself, findMethod\'s candidate collection, static field INITIALISATION, generics, WHEN destroyObject is called '
              '(reference counting / cycle collector; observed: a constructor ending in `return this;` leaves a hidden reference in m_returnValue, so `destroy` of that object never runs its destructor), the candidate '
              'collection loops, and the stamping of a reference with its DECLARED class at declaration / parameter binding - observed defect: `A a = new Sub(); k.g(a)` runs g(Sub) although the analyser resolved g(A) (native oracle, label site.binding.*).',
         ref='DESIGN.md §4 C08'),
@@ -122,7 +122,7 @@ CLAIMS = {
              'null only for class references / same array type; a class or array value never converts to a primitive), the accept/reject decision of the initialiser site (validateTypedInitializer region); and, as whole functions, the visitors of four syntactic sites - '
              'return statement, assignment statement, assignment expression, member assignment, postfix ++/-- (never on final variables or final fields, only on int / long) - and the argument check of call expressions (checkArgs), each proved to accept a value only if it has the declared type (local variable, bare field, object.field, function result), to reject assignments to final variables at the node position, '
              'to reject a value in a void function and a bare return in a non-void one, to route every field write through the final-field rule, to refuse inaccessible fields, instance fields via a type name and final fields except through this inside a constructor; '
-             'resolveField (accessibility, static context) and recordFinalFieldAssignment (own constructor, top level, exactly once - map observed at a ghost key). "Top level" itself (unit NEST): the visitors of block, if, ternary, for and while statements analyse every part - header expressions included - with the nesting depth raised and restore it on every exit, exceptional ones included (scope-exit guards lowered to a single exit point; loop contract over a block\'s statements).',
+             'resolveField (accessibility, static context) and recordFinalFieldAssignment (own constructor, top level, exactly once - map observed at a ghost key). Accessibility sites (unit ACC): every `if (!isAccessible(X->visibility, ..., m_currentClass)) throw` statement of the visitors (five member sites, discovered on every run) refuses exactly when the member is not accessible per ITS OWN visibility and ITS OWN declaring class. Constant folding (unit CFOLD): a zero divisor in a constant integer expression is a Semantic error, sums and differences are exact. "Top level" itself (unit NEST): the visitors of block, if, ternary, for and while statements analyse every part - header expressions included - with the nesting depth raised and restore it on every exit, exceptional ones included (scope-exit guards lowered to a single exit point; loop contract over a block\'s statements).',
         note=TB + 'Generic type-parameter paths are excluded by precondition; class names are interned identities; typeEquals / isSubclassOf / inheritanceDistance / inferTypeInfo / getVariableType / findFieldInHierarchy / accept are contract-only stubs or one-record models (the type of an expression and the class tables are uninterpreted). NOT covered: that each rule is invoked in every syntactic position '
              '(~55 further visitor methods) - the call-argument check is under contract as the local lambda checkArgs (arity, every argument has the declared parameter type; loop invariant with a ghost argument index), but the rest of visit(CallExpression&) (callee resolution, accessibility, static context, super calls) is not; array-element assignment, postfix on finals, void operands, static-context and instantiation rules, @quantum / @shots rules.',
         ref='DESIGN.md §4 C16'),
